@@ -16,7 +16,15 @@ must be seen AT THE SEAM while it runs (successful rename tmp->lock/held = acqui
 lock/held->releasing.* = release, lock/held->broken.* = break; for `counted` the calls
 received by the fake lock).  After every call the public state (is_locked, mode) is
 compared; at the end the history is drained (unlock to zero, one more must be refused)
-and the object must still be able to do one clean lock_write/unlock cycle."""
+and the object must still be able to do one clean lock_write/unlock cycle.
+
+The outermost physical release is also made to FAIL: a peer breaks (and possibly
+re-takes) the lock while the object under test holds it, so its last unlock raises
+LockBroken; or a transport error is injected at one of the transport operations of
+LockDir.unlock (confirm's get, rename held->releasing, delete, rmdir).  Afterwards the
+count is back to 0: the same object must take the physical lock again for its next
+lock_write (or be refused while somebody else's lock is in place) - never "succeed"
+without a physical acquisition."""
 
 import re
 
@@ -44,7 +52,12 @@ COMPONENTS = {
         "breezy.lockdir.LockDir wait_lock / token validation / leave_in_place",
         "dromedary MemoryTransport",
     ],
-    "simulated": ["clock of breezy.lockdir (LockDir's 30 s contention wait is virtual)", "transport error injected before the rename that takes the physical lock"],
+    "simulated": [
+        "clock of breezy.lockdir (LockDir's 30 s contention wait is virtual)",
+        "transport error injected before the rename that takes the physical lock",
+        "transport error injected before one transport operation of the outermost physical unlock (get held/info, rename held->releasing.*, delete, rmdir)",
+        "another process breaking (peek + force_break), re-taking and possibly releasing the lock while the object under test holds it (peer objects in the same address space)",
+    ],
     "stub": ["the real lock under CountedLock (recording fake)", "UI (silent, answers yes)", "competing holders are peer objects of the same kind in the same address space"],
 }
 ASSUMPTIONS = [
@@ -54,12 +67,16 @@ ASSUMPTIONS = [
     "Branch.lock_* also lock the branch's repository object: modelled as a second (mode, count) coupled to the branch's 0->1 / 1->0 transitions",
     "a lock taken with a valid token is not physically acquired and not physically released (LockDir.lock_write(token) / leave_in_place semantics)",
     "break_lock on an object whose own LockDir holds the physical lock is refused with AssertionError (LockDir._check_not_locked); CountedLock.break_lock resets the count",
-    "environment steps (peer takes/releases the lock, leaves a token in place) run only while the object under test is unlocked",
+    "environment steps (peer takes/releases the lock, leaves a token in place) run only while the object under test is unlocked; the steal steps (peer breaks the lock, optionally re-takes / releases it) run only while the object under test physically holds the write lock",
+    "after the outermost unlock - successful, raising LockBroken, or hit by a transport error - the count is 0 and the mode is None; if the error struck before the rename held->releasing the lock directory stays held with the object's old nonce and is modelled as 'left in place with a token' (a later plain lock_write is refused with LockContention, a lock_write with that token takes it over, a peer can release it)",
+    "an injected transport error inside LockDir.unlock may be swallowed (only_raises) or surface as LockBroken / the transport error: all three are accepted, the state afterwards is what is checked",
+    "TOLERATED (property is silent, reported as probes stale:*): after an outermost unlock that failed before LockDir cleared its own held flag, HEAD's LockDir refuses lock_read with LockContention and break_lock with AssertionError on that same object until its next successful lock_write; both 'refused without state change' and 'accepted' are allowed there",
     "working trees are not covered (their lock is an OS file lock outside the transport seam)",
 ]
 
 KINDS = ["counted", "counted", "lf", "lf", "lf", "repo", "branch", "branch", "branch", "branch+repo", "branch+repo"]
 _PENDING = re.compile(r"/lock/[a-z0-9]{10}\.tmp$")
+UNLOCK_STEPS = ["confirm", "rename", "delete", "rmdir"]
 
 
 def warm():
@@ -87,7 +104,7 @@ def _exercise():
     from simkit.sim import Sim
 
     rng = random.Random(28)
-    for _ in range(60):
+    for _ in range(150):
         plan = generate(rng, "quick")
         sim = Sim(0, plan, step_cap=STEP_CAP)
         try:
@@ -121,7 +138,7 @@ def generate(rng, tier):
         if name == "env":
             if kind == "counted":
                 continue
-            step = rng.choice(["other_lock", "other_unlock", "other_unlock", "leave_token", "drop_token"])
+            step = rng.choice(["other_lock", "other_unlock", "other_unlock", "leave_token", "drop_token", "steal", "steal_hold", "steal_cycle"])
             if step == "other_lock" or step == "leave_token":
                 contended += 1
                 if contended > 2:  # every contended lock_write costs a 30 s (virtual) poll loop
@@ -141,7 +158,20 @@ def generate(rng, tier):
             op += [tok, flt]
         elif name == "lock_read" and kind == "counted" and rng.random() < 0.1:
             op += [None, "fail"]
+        elif name == "unlock" and target == "x" and rng.random() < 0.2:
+            if kind == "counted":
+                op += [None, "fail"]
+            elif kind != "repo":
+                op += [None, "uerr:" + rng.choice(UNLOCK_STEPS) + ":" + rng.choice(["transport", "enospc", "permission", "connection", "nosuchfile"])]
         ops.append(op)
+    if kind not in ("counted", "repo") and rng.random() < 0.3:
+        # make the interesting shape likely: write lock (maybe nested), somebody steals it, unlock(s), lock again
+        seq = [["x", "lock_write", None, None]]
+        if rng.random() < 0.4:
+            seq.append(["x", rng.choice(["lock_write", "lock_read"])] + ([None, None] if seq else []))
+        seq.append(["env", rng.choice(["steal", "steal_hold", "steal_cycle"])])
+        at = rng.randint(0, len(ops))
+        ops[at:at] = seq
     return {"kind": kind, "ops": ops, "no_pin": True}
 
 
@@ -199,8 +229,13 @@ class FakeLock:
         return self.TOKEN
 
     def unlock(self):
+        from breezy import errors
+
         self.calls.append("unlock")
         self.held = None
+        if self.fail_next:  # the lock was broken by somebody else
+            self.fail_next = False
+            raise errors.LockBroken(self)
 
     def break_lock(self):
         self.calls.append("break_lock")
@@ -256,6 +291,9 @@ class World:
         self.phys = None  # lock directory of x: None | 'x' | 'other' | 'token'
         self.peer = None
         self.token = None
+        self.broken = False  # a peer broke the lock x believes it holds (x's last unlock must raise LockBroken)
+        self.stale = False  # x's LockDir object kept its internal held flag through a failed outermost unlock
+        self._aim_pred = None
         self.events = []
         self.recording = False
         self._pending = {}
@@ -338,6 +376,8 @@ class World:
     # -- environment ----------------------------------------------------------------------------
     def env(self, step):
         """Peer objects of the same kind act on the lock directory.  Returns what happened."""
+        if step.startswith("steal"):
+            return self.steal(step)
         if self.kind == "counted" or self.mx.count or self.mr.count:
             return "skipped"
         leave = "leave_in_place" if self.kind in ("lf", "repo") else "leave_lock_in_place"
@@ -366,6 +406,29 @@ class World:
             self.phys = None
         else:
             return "skipped"
+        if self.rt.has(self.lockdir[1:] + "/held") != (self.phys is not None):
+            raise RuntimeError(f"environment step {step} did not have its effect")
+        return "done"
+
+    def steal(self, step):
+        """Another process decides x's lock is stale: peek + force_break, then maybe takes it (and releases it)."""
+        from breezy.lockdir import LockDir
+
+        if self.kind in ("counted", "repo") or self.phys != "x" or self.mx.mode != "w" or self.mx.via_token or self.broken:
+            return "skipped"
+        base = self.lockdir[1:].rsplit("lock", 1)[0].rstrip("/")
+        ld = LockDir(self.t.clone(base) if base else self.t.clone(), "lock")
+        ld.force_break(ld.peek())
+        self.broken = True
+        self.phys = None
+        self.token = None
+        if step in ("steal_hold", "steal_cycle"):
+            self.peer = self.new_object()
+            self.token = _tok(self.peer.lock_write())
+            self.phys = "other"
+            if step == "steal_cycle":
+                self.peer.unlock()
+                self.peer, self.token, self.phys = None, None, None
         if self.rt.has(self.lockdir[1:] + "/held") != (self.phys is not None):
             raise RuntimeError(f"environment step {step} did not have its effect")
         return "done"
@@ -400,15 +463,32 @@ class World:
         token = self.token_arg(tok) if name == "lock_write" else None
         token_valid = tok == "valid" and token != b"bogus-token-bogus"
         before = (self.mx.key(), self.mr.key(), self.rd, self.phys)
-        exp_exc, exp_events, apply_ = self.predict(target, name, tok, token_valid, flt)
+        alts = self.predict(target, name, tok, token_valid, flt)
+        if isinstance(alts, tuple):
+            alts = [alts]
         # -- perform
         injected = False
+        ustep = None
         if flt == "fail":
             self.fake.fail_next = True
         elif flt and flt.startswith("err:") and self.kind != "counted":
             injected = True
+            self._aim_pred = lambda op, path: op == "rename" and _PENDING.search(path) is not None
             sim.fault_filter = self._aim
             sim.arm([{"kind": "err_before", "at": -1, "count": "any", "op": "rename", "err": flt[4:], "dyn": True}])
+        elif flt and flt.startswith("uerr:") and name == "unlock" and self.kind in ("lf", "branch", "branch+repo") and not self.broken:
+            _, ustep, uerr = flt.split(":")
+            injected = True
+            d = self.lockdir
+            top, pred = {
+                "confirm": ("get", lambda op, path: path == d + "/held/info"),
+                "rename": ("rename", lambda op, path: path == d + "/held"),
+                "delete": ("delete", lambda op, path: path.startswith(d + "/releasing.") and path.endswith("/info")),
+                "rmdir": ("rmdir", lambda op, path: path.startswith(d + "/releasing.")),
+            }[ustep]
+            self._aim_pred = lambda op, path, _t=top, _p=pred: op == _t and _p(op, path)
+            sim.fault_filter = self._aim
+            sim.arm([{"kind": "err_before", "at": -1, "count": "any", "op": top, "err": uerr, "dyn": True}])
         self.events = []
         if self.kind == "counted":
             self.fake.calls = []
@@ -446,12 +526,24 @@ class World:
         got = type(exc).__name__ if exc is not None else "ok"
         sim.event("call", target, name, tok, flt, got, ",".join(events), "fired" if fired else "")
         sim.probe(f"{name}:{got}")
-        if fired:
+        if fired and ustep is None:
             sim.probe("acquire_error:" + ("gave_up" if exc is not None else "retried_ok"))
+        if fired and ustep is not None:
+            sim.probe(f"release_error:{ustep}:{got}")
         # -- compare
         if crash is not None:
             raise Deviation("internal_error", site, f"{target}.{name}({tok or ''}) failed with {got}; model before: {before}\n{crash}")
-        if injected and fired and exc is not None:
+        if fired and ustep is not None:
+            # a transport error inside the outermost physical unlock: swallowed (only_raises), LockBroken, or the
+            # error itself; what is left on disk depends on whether the rename held->releasing.* had happened
+            alts = [self.predict_failed_release(ustep, exc)]
+        exp_exc, exp_events, apply_ = alts[0]
+        for alt in alts[1:]:
+            # a tolerated alternative (see ASSUMPTIONS): taken only if it matches what happened exactly
+            if alt[0] is not None and exc is not None and isinstance(exc, alt[0]) and events == alt[1]:
+                exp_exc, exp_events, apply_ = alt
+                sim.probe(f"stale:{name}:{got}")
+        if injected and fired and ustep is None and exc is not None:
             # the physical acquisition met a transport error: LockDir may retry (then the call is judged as an
             # ordinary successful acquisition) or give up: refused, nothing acquired, nothing changed
             exp_exc, exp_events, apply_ = type(exc), [], None
@@ -470,8 +562,9 @@ class World:
         self.observe(site, f"after {target}.{name}({tok or ''}) -> {got}")
 
     def _aim(self, a, op, path, mutating):
-        # point the armed fault at the rename that takes the physical lock (pending dir -> held)
-        if op == "rename" and _PENDING.search(path):
+        # point the armed fault at the operation selected by _aim_pred (e.g. the rename that takes the physical
+        # lock, pending dir -> held)
+        if self._aim_pred(op, path):
             for f in self.sim.faults:
                 if f.get("dyn") and not f.get("done"):
                     f["at"] = a.nops + 1
@@ -514,6 +607,9 @@ class World:
             if name == "unlock":
                 if mx.count == 0:
                     return errors.LockNotHeld, [], None
+                if mx.count == 1 and flt == "fail":
+                    # the real unlock fails: the count is dropped all the same
+                    return errors.LockBroken, ["unlock"], self._down(mx)
                 return None, (["unlock"] if mx.count == 1 else []), self._down(mx)
             if name == "break_lock":
 
@@ -545,9 +641,10 @@ class World:
         # lf / branch: a LockableFiles over a LockDir (+ the repository coupling for a branch)
         br = kind.startswith("branch")
         if name == "lock_read":
-            if mx.count == 0 and br:
-                return None, [], self._both(up(mx, "r"), up(mr, "r"))
-            return None, [], up(mx, "r")
+            main = (None, [], self._both(up(mx, "r"), up(mr, "r"))) if (mx.count == 0 and br) else (None, [], up(mx, "r"))
+            if mx.count == 0 and self.stale:
+                return [main, (errors.LockContention, [], None)]
+            return main
         if name == "lock_write":
             if mx.count:
                 if mx.mode != "w":
@@ -561,25 +658,58 @@ class World:
             if tok is not None:
                 if not token_valid:
                     return errors.TokenMismatch, [], None
-                return None, [], self._both(up(mx, "w"), rep, self._set(via_token=True))
+                return None, [], self._both(up(mx, "w"), rep, self._set(via_token=True), self._unstale)
             if self.phys is not None:
                 return errors.LockContention, [], None
-            return None, ["x:acquire"], self._both(up(mx, "w"), rep, self._set(phys="x"))
+            return None, ["x:acquire"], self._both(up(mx, "w"), rep, self._set(phys="x"), self._unstale)
         if name == "unlock":
             if mx.count == 0:
                 return errors.LockNotHeld, [], None
             last = mx.count == 1
             rep = self._down(mr) if (br and last) else None
             if last and mx.mode == "w" and not mx.via_token:
+                if self.broken:
+                    # somebody broke (and maybe re-took) the lock: nothing is released, the caller is told, and the
+                    # object is unlocked all the same
+                    return errors.LockBroken, [], self._both(self._down(mx), rep, self._after_broken)
                 return None, ["x:release"], self._both(self._down(mx), rep, self._set(phys=None))
             return None, [], self._both(self._down(mx), rep)
         if name == "break_lock":
             if mx.mode == "w":
                 return AssertionError, [], None
-            if self.phys in ("other", "token"):
-                return None, ["x:break"], self._broken
-            return None, [], None
+            main = (None, ["x:break"], self._broken) if self.phys in ("other", "token") else (None, [], None)
+            if self.stale:
+                return [main, (AssertionError, [], None)]
+            return main
         raise RuntimeError(name)
+
+    def predict_failed_release(self, ustep, exc):
+        """Outermost unlock of a physically held write lock, transport error before op `ustep` of LockDir.unlock."""
+        from breezy import errors
+
+        mx, mr = self.mx, self.mr
+        br = self.kind.startswith("branch")
+        rep = self._down(mr) if br else None
+        ok = exc is None or isinstance(exc, (errors.LockBroken, OSError)) or type(exc).__module__.split(".")[0] == "dromedary"
+        exp_exc = (type(exc) if ok else errors.LockBroken) if exc is not None else None
+        if ustep in ("confirm", "rename"):
+
+            def left():
+                # held/ is still there with x's nonce and no object behind it
+                info = locksim.read_info(self.t, self.lockdir[1:] + "/held/info")
+                self.phys = "token"
+                self.token = info[0] if info else None
+                self.stale = True
+
+            return exp_exc, [], self._both(self._down(mx), rep, left)
+        return exp_exc, ["x:release"], self._both(self._down(mx), rep, self._set(phys=None))
+
+    def _unstale(self):
+        self.stale = False
+
+    def _after_broken(self):
+        self.broken = False
+        self.stale = True
 
     def _down(self, m):
         def f():
